@@ -119,6 +119,13 @@ CLAIMED = {
    "must leave the full data dump (schema text, rows, rowids) unchanged, with --auto-approve and with --dry-run.",
    "Timestamps, durations and file hashes of revision rows are masked; an absent revision table equals an empty one except in the strict dry-run comparison. SQLite only (transactional DDL).",
    "4/C13"),
+ "C14": ("exploration",
+   "enumeration of (command x dev-database kind x directory/schema shape x failing-statement position) + rapid PBT on the real CLI; oracle = before/after equality of an independent full dump of the dev database and of the directory's file hashes",
+   "Every command that takes --dev-url (migrate diff, migrate validate, migrate lint, schema apply --to file://*.sql, schema diff between SQL files) is run against SQLite dev databases that are empty, hold tables+rows, hold only a view, hold a table with a trigger, or are in-memory, "
+   "with migration directories / SQL schemas whose replay fails at every statement position or not at all. A non-empty dev database must make the command exit non-zero saying it is not clean and must be byte-for-byte unchanged in the independent dump (sqlite_master incl. views/triggers/internal tables, rows, rowids); "
+   "an empty one must be handed back with the identical (empty) dump on success and on failure; the migration directory's files (SHA-256) are unchanged except that migrate diff may add one file and rewrite atlas.sum.",
+   "SQLite only. The in-memory dev database cannot be inspected afterwards (only the directory invariant is checked for it).",
+   "4/C14"),
 }
 PENDING_REASON = "check not built yet in this session (planned in DESIGN.md section 4; will be claimed once its quick check is green and sensitivity-tested)"
 
